@@ -422,7 +422,7 @@ class Interp:
             if pa or pb:
                 if not getattr(self, 'assuming', 0) or (pa and pb) or \
                         len((a if pa else b).items) != 1:
-                    raise EngineError('a trace is read before a postcondition has defined it')
+                    raise V.PendingRead('a trace is read before a postcondition has defined it')
                 # defining equation of a havocked trace (callee postcondition new == old + [...])
                 if pa:
                     a.items = list(b.items)
@@ -1255,6 +1255,8 @@ class Interp:
         if isinstance(obj, list) and isinstance(idx, Sym):
             obj = SList(obj)
         if isinstance(obj, SList):
+            if obj.items and obj.items[0] is V.PENDING:
+                raise V.PendingRead('a trace is read before a postcondition has defined it')
             i = self.norm_index(idx, len(obj.items))
             return self.select_chain(i, obj.items)
         if isinstance(obj, tuple):
@@ -1403,6 +1405,8 @@ class Interp:
                 return X2.lift(obj).getslice(self, lo, hi, st)
             raise EngineError('symbolic slice bounds')
         if isinstance(obj, SList):
+            if obj.items and obj.items[0] is V.PENDING:
+                raise V.PendingRead('a trace is read before a postcondition has defined it')
             return SList(obj.items[slice(lo, hi, st)])
         if isinstance(obj, GList):
             raise EngineError('slice of guarded list')
